@@ -11,6 +11,7 @@ use crate::error::{SnmpError, SnmpResult};
 use pyo3::types::PyString;
 use pyo3::{Bound, IntoPyObject, PyAny, Python};
 use std::borrow::Cow;
+use std::cmp::Ordering;
 use std::fmt::Write;
 
 // Object identifier type
@@ -89,6 +90,37 @@ impl SnmpOid<'_> {
     #[inline]
     pub fn starts_with(&self, oid: &SnmpOid) -> bool {
         oid.0.starts_with(&self.0)
+    }
+    /// Compare two oids in the lexicographic order of their sub-identifiers.
+    pub fn cmp_arcs(&self, other: &SnmpOid) -> Ordering {
+        let (mut a, mut b): (&[u8], &[u8]) = (&self.0, &other.0);
+        loop {
+            match (a.is_empty(), b.is_empty()) {
+                (true, true) => return Ordering::Equal,
+                (true, false) => return Ordering::Less,
+                (false, true) => return Ordering::Greater,
+                _ => {}
+            }
+            let (x, rest_a) = Self::split_arc(a);
+            let (y, rest_b) = Self::split_arc(b);
+            // Same length: base-128 big-endian octets compare as numbers
+            let r = x.len().cmp(&y.len()).then_with(|| x.cmp(y));
+            if r != Ordering::Equal {
+                return r;
+            }
+            a = rest_a;
+            b = rest_b;
+        }
+    }
+    /// Split off the first sub-identifier, without its leading padding octets.
+    fn split_arc(data: &[u8]) -> (&[u8], &[u8]) {
+        let end = data
+            .iter()
+            .position(|c| c & 0x80 == 0)
+            .map_or(data.len(), |p| p + 1);
+        let (arc, rest) = data.split_at(end);
+        let pad = arc.iter().take_while(|&&c| c == 0x80).count();
+        (&arc[pad..], rest)
     }
 }
 
